@@ -156,10 +156,11 @@ class Result:
 
 
 class Interp:
-    def __init__(self, fn, hooks=None, init=None, depth=0, keep=False):
+    def __init__(self, fn, hooks=None, init=None, depth=0, keep=False, edge_probe=None):
         self.fn = fn
         self.hooks = hooks or {}
         self.init = init or {}
+        self.edge_probe = edge_probe   # edge_probe(from block, to block, state) for every propagated abstract state
         self.depth = depth        # nesting of callee summaries
         self.keep = keep          # record the state at every normal return, never drop dead variables
         self._dead = False
@@ -332,6 +333,12 @@ class Interp:
                 if not ptr and any(d in self.escaped for d in deps):
                     ptr = True
                 text = fn.expr(nid)
+                if n.get('k') == 'index':
+                    # p[k] and *(p + k) (p[0] and *p) are one location
+                    kc = fn.const_value(n['idx'])
+                    bn = fn.nodes.get(fn.strip(n['base']))
+                    if kc is not None and bn is not None and (bn.get('t') or '').rstrip().endswith('*'):
+                        text = ('*%s' % fn.expr(n['base'])) if kc == 0 else ('*(%s + %d)' % (fn.expr(n['base']), kc))
                 out = (text, frozenset(deps), ptr, local)
                 self.edeps[text] = (frozenset(deps), ptr)
                 self.kr.setdefault(('e', text), type_range(n.get('t')))
@@ -1067,6 +1074,8 @@ class Interp:
                 break
             processed[(b, sg)] = processed.get((b, sg), 0) + 1
             for (s2, succ) in self._block(b, dict(st)):
+                if self.edge_probe is not None:
+                    self.edge_probe(b, succ, s2)
                 arrive(succ, s2)
         return res
 
